@@ -25,6 +25,16 @@ var (
 	shC03 = Shape{}
 	shC04 = Shape{MaxN: 10}
 	shC10 = Shape{}
+	mkC05 = func() []*sim.Mon { return []*sim.Mon{sim.MonC05()} }
+	mkC07 = func() []*sim.Mon { return []*sim.Mon{sim.MonC07()} }
+	shC05 = Shape{MaxHeights: 5, MaybeChanging: 40, StepsFactor: 150}
+	shC07 = Shape{}
+	mkC11 = func() []*sim.Mon { return nil }
+	mkC12 = func() []*sim.Mon { return []*sim.Mon{sim.MonC12()} }
+	mkC13 = func() []*sim.Mon { return []*sim.Mon{sim.MonC13()} }
+	shC11 = Shape{Probes: 12, MaybeChanging: 15}
+	shC12 = Shape{ManyTxs: true}
+	shC13 = Shape{Watchers: true}
 )
 
 func init() {
@@ -33,6 +43,11 @@ func init() {
 	regSafety("C03", mkC03, shC03)
 	regSafety("C04", mkC04, shC04)
 	regSafety("C10", mkC10, shC10)
+	regSafety("C05", mkC05, shC05)
+	regSafety("C07", mkC07, shC07)
+	regSafety("C11", mkC11, shC11)
+	regSafety("C12", mkC12, shC12)
+	regSafety("C13", mkC13, shC13)
 }
 
 func TestC01(t *testing.T) {
@@ -71,6 +86,46 @@ func TestC10(t *testing.T) {
 	runProp(t, "C10", func(e *Env) func(*rapid.T) {
 		return SafetyProp(e, mkC10, shC10, func(w *sim.World) bool {
 			return w.Stats["c10_timeout_consumed"] > 0 || w.Stats["c10_view_changed"] > 0
+		})
+	})
+}
+
+func TestC05(t *testing.T) {
+	runProp(t, "C05", func(e *Env) func(*rapid.T) {
+		return SafetyProp(e, mkC05, shC05, func(w *sim.World) bool {
+			return w.Stats["c05_reinit_checked"] > 0 && (w.Stats["c05_skipped_heights"] > 0 || w.Stats["changing_sets"] > 0 || w.Stats["c05_early_traffic"] > 0 || w.Stats["c05_call_after_decision"] > 0)
+		})
+	})
+}
+
+func TestC07(t *testing.T) {
+	runProp(t, "C07", func(e *Env) func(*rapid.T) {
+		return SafetyProp(e, mkC07, shC07, func(w *sim.World) bool {
+			return (w.Stats["c07_commit_checked"] > 0 && (w.Stats["early_delivery"] > 0 || w.Stats["c07_preblock_failed"] > 0)) || w.Stats["c07_precommit_while_off"] > 0
+		})
+	})
+}
+
+func TestC11(t *testing.T) {
+	runProp(t, "C11", func(e *Env) func(*rapid.T) {
+		return SafetyProp(e, mkC11, shC11, func(w *sim.World) bool {
+			return w.Stats["c11_probe_nontrivial"] > 0
+		})
+	})
+}
+
+func TestC12(t *testing.T) {
+	runProp(t, "C12", func(e *Env) func(*rapid.T) {
+		return SafetyProp(e, mkC12, shC12, func(w *sim.World) bool {
+			return w.Stats["c12_nontrivial"] > 0
+		})
+	})
+}
+
+func TestC13(t *testing.T) {
+	runProp(t, "C13", func(e *Env) func(*rapid.T) {
+		return SafetyProp(e, mkC13, shC13, func(w *sim.World) bool {
+			return w.Stats["c13_watch_is_primary"] > 0
 		})
 	})
 }
